@@ -24,6 +24,10 @@ def RegTable.ok (t : RegTable) : Bool :=
   t.rows.all (fun r => Nat.beq r.1 r.2.1 && Nat.beq r.1 r.2.2.1 && r.2.2.2.1 && memN r.2.2.2.2 knownResistance)
 
 theorem registries_ok : registries.all RegTable.ok = true := by decide +kernel
+/-- every cassette tag of the live table selects a known antibiotic -/
+theorem antibiotics_known : antibiotics.all (fun e => memN e.2 knownResistance) = true := by decide +kernel
+theorem antibiotics_nonempty : 4 ≤ antibiotics.length := by decide +kernel
+
 theorem registries_count : registries.length = 5 := by decide +kernel
 theorem registries_nonempty : registries.all (fun t => decide (10 ≤ t.rows.length)) = true := by decide +kernel
 
